@@ -16,33 +16,33 @@ var intrinsics map[string]intrinsic
 func init() {
 	intrinsics = map[string]intrinsic{
 		// ---- math/big (API-level model over SMT Int) ----
-		"math/big.NewInt":            bigNewInt,
-		"(*math/big.Int).SetBytes":   bigSetBytes,
-		"(*math/big.Int).Bytes":      bigBytes,
-		"(*math/big.Int).Cmp":        bigCmp,
-		"(*math/big.Int).CmpAbs":     bigCmpAbs,
-		"(*math/big.Int).Add":        func(in *Interp, fn *ssa.Function, a []Value) Value { return bigArith(in, "+", a) },
-		"(*math/big.Int).Sub":        func(in *Interp, fn *ssa.Function, a []Value) Value { return bigArith(in, "-", a) },
-		"(*math/big.Int).Mul":        func(in *Interp, fn *ssa.Function, a []Value) Value { return bigArith(in, "*", a) },
-		"(*math/big.Int).Neg":        bigNeg,
-		"(*math/big.Int).Abs":        bigAbs,
-		"(*math/big.Int).Set":        bigSet,
-		"(*math/big.Int).SetUint64":  bigSetUint64,
-		"(*math/big.Int).SetInt64":   bigSetInt64,
-		"(*math/big.Int).Uint64":     bigUint64,
-		"(*math/big.Int).Int64":      bigInt64,
-		"(*math/big.Int).Sign":       bigSign,
-		"(*math/big.Int).IsUint64":   bigIsUint64,
-		"(*math/big.Int).String":     func(in *Interp, fn *ssa.Function, a []Value) Value { return strFromGo("<big>") },
-		"(*math/big.Int).BitLen":     nil,
+		"math/big.NewInt":           bigNewInt,
+		"(*math/big.Int).SetBytes":  bigSetBytes,
+		"(*math/big.Int).Bytes":     bigBytes,
+		"(*math/big.Int).Cmp":       bigCmp,
+		"(*math/big.Int).CmpAbs":    bigCmpAbs,
+		"(*math/big.Int).Add":       func(in *Interp, fn *ssa.Function, a []Value) Value { return bigArith(in, "+", a) },
+		"(*math/big.Int).Sub":       func(in *Interp, fn *ssa.Function, a []Value) Value { return bigArith(in, "-", a) },
+		"(*math/big.Int).Mul":       func(in *Interp, fn *ssa.Function, a []Value) Value { return bigArith(in, "*", a) },
+		"(*math/big.Int).Neg":       bigNeg,
+		"(*math/big.Int).Abs":       bigAbs,
+		"(*math/big.Int).Set":       bigSet,
+		"(*math/big.Int).SetUint64": bigSetUint64,
+		"(*math/big.Int).SetInt64":  bigSetInt64,
+		"(*math/big.Int).Uint64":    bigUint64,
+		"(*math/big.Int).Int64":     bigInt64,
+		"(*math/big.Int).Sign":      bigSign,
+		"(*math/big.Int).IsUint64":  bigIsUint64,
+		"(*math/big.Int).String":    func(in *Interp, fn *ssa.Function, a []Value) Value { return strFromGo("<big>") },
+		"(*math/big.Int).BitLen":    nil,
 
 		// ---- errors / fmt ----
-		"errors.Is":    errorsIs,
-		"fmt.Errorf":   fmtErrorf,
-		"fmt.Sprintf":  func(in *Interp, fn *ssa.Function, a []Value) Value { return strFromGo("<sprintf>") },
-		"fmt.Sprint":   func(in *Interp, fn *ssa.Function, a []Value) Value { return strFromGo("<sprint>") },
-		"fmt.Println":  func(in *Interp, fn *ssa.Function, a []Value) Value { return Tuple{BV{W: 64}, Iface{}} },
-		"fmt.Printf":   func(in *Interp, fn *ssa.Function, a []Value) Value { return Tuple{BV{W: 64}, Iface{}} },
+		"errors.Is":   errorsIs,
+		"fmt.Errorf":  fmtErrorf,
+		"fmt.Sprintf": func(in *Interp, fn *ssa.Function, a []Value) Value { return strFromGo("<sprintf>") },
+		"fmt.Sprint":  func(in *Interp, fn *ssa.Function, a []Value) Value { return strFromGo("<sprint>") },
+		"fmt.Println": func(in *Interp, fn *ssa.Function, a []Value) Value { return Tuple{BV{W: 64}, Iface{}} },
+		"fmt.Printf":  func(in *Interp, fn *ssa.Function, a []Value) Value { return Tuple{BV{W: 64}, Iface{}} },
 
 		// ---- asm-backed leaves ----
 		"internal/bytealg.IndexByteString": func(in *Interp, fn *ssa.Function, a []Value) Value {
@@ -89,22 +89,22 @@ func init() {
 		"(*sync.Mutex).Unlock":    func(in *Interp, fn *ssa.Function, a []Value) Value { in.lockOp(a[0].(*Value), "Unlock"); return nil },
 
 		// ---- sync/atomic ----
-		"sync/atomic.LoadUint32":  atomicLoad,
-		"sync/atomic.LoadUint64":  atomicLoad,
-		"sync/atomic.LoadInt32":   atomicLoad,
-		"sync/atomic.LoadInt64":   atomicLoad,
-		"sync/atomic.StoreUint32": atomicStore,
-		"sync/atomic.StoreUint64": atomicStore,
-		"sync/atomic.StoreInt32":  atomicStore,
-		"sync/atomic.StoreInt64":  atomicStore,
-		"sync/atomic.SwapUint32":  atomicSwap,
-		"sync/atomic.SwapUint64":  atomicSwap,
-		"sync/atomic.SwapInt32":   atomicSwap,
-		"sync/atomic.SwapInt64":   atomicSwap,
-		"sync/atomic.AddUint32":   atomicAdd,
-		"sync/atomic.AddUint64":   atomicAdd,
-		"sync/atomic.AddInt32":    atomicAdd,
-		"sync/atomic.AddInt64":    atomicAdd,
+		"sync/atomic.LoadUint32":           atomicLoad,
+		"sync/atomic.LoadUint64":           atomicLoad,
+		"sync/atomic.LoadInt32":            atomicLoad,
+		"sync/atomic.LoadInt64":            atomicLoad,
+		"sync/atomic.StoreUint32":          atomicStore,
+		"sync/atomic.StoreUint64":          atomicStore,
+		"sync/atomic.StoreInt32":           atomicStore,
+		"sync/atomic.StoreInt64":           atomicStore,
+		"sync/atomic.SwapUint32":           atomicSwap,
+		"sync/atomic.SwapUint64":           atomicSwap,
+		"sync/atomic.SwapInt32":            atomicSwap,
+		"sync/atomic.SwapInt64":            atomicSwap,
+		"sync/atomic.AddUint32":            atomicAdd,
+		"sync/atomic.AddUint64":            atomicAdd,
+		"sync/atomic.AddInt32":             atomicAdd,
+		"sync/atomic.AddInt64":             atomicAdd,
 		"sync/atomic.CompareAndSwapUint32": atomicCAS,
 		"sync/atomic.CompareAndSwapUint64": atomicCAS,
 		"sync/atomic.CompareAndSwapInt32":  atomicCAS,
